@@ -39,7 +39,7 @@ def examples(tier):
 def strategy(draw, tier="quick"):
     regime = draw(st.sampled_from(REGIMES))
     shape = "nonrecursive" if regime in ("QQ", "FREE") else None
-    g = draw(gen.grammar(regimes=[regime], shape=shape))
+    g = draw(gen.grammar(regimes=[regime], shape=shape, **gen.size(tier)))
     return {"g": g, "perm": draw(st.sampled_from([0, 1, 3, "rev"]))}
 
 
